@@ -11,6 +11,7 @@ import (
 	"github.com/ipld/go-ipld-prime/schema"
 
 	"verifharness/model"
+	"verifharness/replay"
 	"verifharness/run"
 )
 
@@ -73,7 +74,7 @@ func init() {
 			v, err := model.Project(nb.Build().(datamodel.Node))
 			return s + " " + v.String(), err
 		}
-		for i := 0; i+2 < len(freshTypes); i += 3 {
+		for i := 0; i+2 < 240; i += 3 {
 			// the group: a plain type bound alone, then a plain type and the type that nests it bound together
 			for _, pair := range [][]int{{i}, {i + 1, i + 2}} {
 				start := make(chan struct{})
@@ -91,7 +92,7 @@ func init() {
 						for _, ti := range order {
 							var s string
 							var err error
-							if p := model.Safe(func() { s, err = describe(bindnode.Prototype(freshTypes[ti], nil)) }); p != nil {
+							if p := model.Safe(func() { s, err = describe(bindnode.Prototype(replay.FreshTypes[ti], nil)) }); p != nil {
 								s = fmt.Sprintf("PANIC: %v", p)
 							} else if err != nil {
 								s = fmt.Sprintf("ERROR: %v (%s)", err, s)
